@@ -70,6 +70,9 @@ impl IoElt for f64 {
     fn gen(g: &mut Gen, specials: bool, uniq: u64) -> f64 {
         if specials && g.bool(1, 4) {
             special_f64(g)
+        } else if specials && g.bool(1, 3) {
+            // any bit pattern: random mantissas at every exponent (tiny, huge, subnormal, NaN payloads)
+            f64::from_bits(g.u64())
         } else {
             (uniq as f64) + g.f64() * 0.5 - 0.25 + if g.bool(1, 8) { g.normal() * 1e10 } else { 0.0 }
         }
@@ -83,6 +86,8 @@ impl IoElt for f32 {
     fn gen(g: &mut Gen, specials: bool, uniq: u64) -> f32 {
         if specials && g.bool(1, 4) {
             special_f32(g)
+        } else if specials && g.bool(1, 3) {
+            f32::from_bits(g.u64() as u32)
         } else {
             (uniq as f32) + (g.f64() as f32) * 0.5 - 0.25
         }
@@ -251,14 +256,35 @@ struct SaveCase {
     may_refuse: bool,
 }
 
-fn make_array_case<T: IoElt>(fmt: Fmt, shape: [usize; 3], g: &mut Gen, specials: bool) -> SaveCase
+/// The same logical array in another memory layout (the save functions take `&Array3<T>`, which may be
+/// column-major, axis-permuted or carry a negative stride): 0 = C order, 1 = Fortran order,
+/// 2 = first two axes permuted, 3 = middle axis inverted, 4 = all axes reversed
+fn relayout<T: Copy>(arr: Array3<T>, mode: u64) -> Array3<T> {
+    use ndarray::{Axis, ShapeBuilder};
+    let (s0, s1, s2) = arr.dim();
+    let out = match mode {
+        1 => Array3::from_shape_fn((s0, s1, s2).f(), |idx| arr[idx]),
+        2 => Array3::from_shape_fn((s1, s0, s2), |(b, a, j)| arr[(a, b, j)]).permuted_axes([1, 0, 2]),
+        3 => {
+            let mut r = Array3::from_shape_fn((s0, s1, s2), |(a, b, j)| arr[(a, s1 - 1 - b, j)]);
+            r.invert_axis(Axis(1));
+            r
+        }
+        4 => Array3::from_shape_fn((s2, s1, s0), |(j, b, a)| arr[(a, b, j)]).reversed_axes(),
+        _ => return arr,
+    };
+    assert_eq!(out.dim(), (s0, s1, s2), "HARNESS-ERROR: relayout changed the logical shape");
+    out
+}
+
+fn make_array_case<T: IoElt>(fmt: Fmt, shape: [usize; 3], g: &mut Gen, specials: bool, layout: u64) -> SaveCase
 where
     T: Into<f64>,
 {
     let n = shape[0] * shape[1] * shape[2];
     let data: Vec<T> = (0..n).map(|i| T::gen(g, specials, i as u64)).collect();
     let cells = Cells { shape, vals: data.iter().map(|x| x.wide()).collect() };
-    let arr = Array3::from_shape_vec((shape[0], shape[1], shape[2]), data).unwrap();
+    let arr = relayout(Array3::from_shape_vec((shape[0], shape[1], shape[2]), data).unwrap(), layout);
     let d = shape[2];
     let want = expected_rows(&cells, false);
     let (save, check): (Box<dyn Fn(&str) -> Result<(), String>>, Box<dyn Fn(&[u8]) -> Result<(), String>>) = match fmt {
@@ -275,14 +301,14 @@ where
             Box::new(move |b| parse_parquet(b, d, "chain", "observation").and_then(|r| compare_rows(r, &want))),
         ),
     };
-    SaveCase { fmt, cells, save, check, desc: format!("{fmt:?}<{}> shape {shape:?}", T::NAME), may_refuse: false }
+    SaveCase { fmt, cells, save, check, desc: format!("{fmt:?}<{}> shape {shape:?} layout {layout}", T::NAME), may_refuse: false }
 }
 
 /// usize is Display but not Into<f64>: CSV only
-fn make_csv_usize_case(shape: [usize; 3], g: &mut Gen, specials: bool) -> SaveCase {
+fn make_csv_usize_case(shape: [usize; 3], g: &mut Gen, specials: bool, layout: u64) -> SaveCase {
     let n = shape[0] * shape[1] * shape[2];
     let data: Vec<usize> = (0..n).map(|i| usize::gen(g, specials, i as u64)).collect();
-    let arr = Array3::from_shape_vec((shape[0], shape[1], shape[2]), data.clone()).unwrap();
+    let arr = relayout(Array3::from_shape_vec((shape[0], shape[1], shape[2]), data.clone()).unwrap(), layout);
     let d = shape[2];
     // compare as exact integers via u64 strings: widen through u64 -> f64 loses bits, so check text
     let want_txt: BTreeMap<(u32, u32), Vec<usize>> = {
@@ -395,17 +421,18 @@ fn build_case(p: &Value) -> SaveCase {
     let mut g = Gen::new(pu(p, "gseed"));
     let shape = [pus(p, "s0"), pus(p, "s1"), pus(p, "s2")];
     let specials = pb(p, "specials");
+    let layout = p.get("layout").and_then(|v| v.as_u64()).unwrap_or(0);
     match (ps(p, "fmt"), ps(p, "elt")) {
-        ("csv", "f64") => make_array_case::<f64>(Fmt::Csv, shape, &mut g, specials),
-        ("csv", "f32") => make_array_case::<f32>(Fmt::Csv, shape, &mut g, specials),
-        ("csv", "i32") => make_array_case::<i32>(Fmt::Csv, shape, &mut g, specials),
-        ("csv", _) => make_csv_usize_case(shape, &mut g, specials),
-        ("arrow", "f64") => make_array_case::<f64>(Fmt::Arrow, shape, &mut g, specials),
-        ("arrow", "f32") => make_array_case::<f32>(Fmt::Arrow, shape, &mut g, specials),
-        ("arrow", _) => make_array_case::<i32>(Fmt::Arrow, shape, &mut g, specials),
-        ("parquet", "f64") => make_array_case::<f64>(Fmt::Parquet, shape, &mut g, specials),
-        ("parquet", "f32") => make_array_case::<f32>(Fmt::Parquet, shape, &mut g, specials),
-        ("parquet", _) => make_array_case::<i32>(Fmt::Parquet, shape, &mut g, specials),
+        ("csv", "f64") => make_array_case::<f64>(Fmt::Csv, shape, &mut g, specials, layout),
+        ("csv", "f32") => make_array_case::<f32>(Fmt::Csv, shape, &mut g, specials, layout),
+        ("csv", "i32") => make_array_case::<i32>(Fmt::Csv, shape, &mut g, specials, layout),
+        ("csv", _) => make_csv_usize_case(shape, &mut g, specials, layout),
+        ("arrow", "f64") => make_array_case::<f64>(Fmt::Arrow, shape, &mut g, specials, layout),
+        ("arrow", "f32") => make_array_case::<f32>(Fmt::Arrow, shape, &mut g, specials, layout),
+        ("arrow", _) => make_array_case::<i32>(Fmt::Arrow, shape, &mut g, specials, layout),
+        ("parquet", "f64") => make_array_case::<f64>(Fmt::Parquet, shape, &mut g, specials, layout),
+        ("parquet", "f32") => make_array_case::<f32>(Fmt::Parquet, shape, &mut g, specials, layout),
+        ("parquet", _) => make_array_case::<i32>(Fmt::Parquet, shape, &mut g, specials, layout),
         ("csv_tensor", "f64") => make_tensor_case(Fmt::CsvTensor, shape, &mut g, specials, true),
         ("csv_tensor", _) => make_tensor_case(Fmt::CsvTensor, shape, &mut g, specials, false),
         ("parquet_tensor", "f64") => make_tensor_case(Fmt::ParquetTensor, shape, &mut g, specials, true),
@@ -501,7 +528,7 @@ impl Scenario for IoFaults {
             // large enough for several flushes of an 8 KiB buffer
             s = [g.usize(3, 6), g.usize(30, 40), g.usize(5, 8)];
         }
-        json!({"fmt": fmt, "elt": elt, "s0": s[0], "s1": s[1], "s2": s[2], "specials": g.bool(1, 2), "gseed": g.u64(), "fseed": g.u64(), "max_points": 48})
+        json!({"fmt": fmt, "elt": elt, "s0": s[0], "s1": s[1], "s2": s[2], "specials": g.bool(1, 2), "gseed": g.u64(), "fseed": g.u64(), "max_points": 48, "layout": if tensor || g.bool(1, 2) { 0 } else { g.range(1, 4) }})
     }
     fn execute(&self, p: &Value, ws: bool) -> Outcome {
         let mut o = Outcome::default();
@@ -576,10 +603,13 @@ impl Scenario for IoFaults {
         if pb(p, "specials") {
             out.push(with(p, "specials", json!(false)));
         }
+        if p.get("layout").and_then(|v| v.as_u64()).unwrap_or(0) != 0 {
+            out.push(with(p, "layout", json!(0)));
+        }
         out
     }
     fn rule(&self) -> &'static str {
-        "one run = one input (format x element type visited in turn by run index; shape 0..6 x 0..40 x 0..8 incl. empty axes; special values) saved fault-free and then once per (write-call index, fault kind) for EVERY write call of that file (sampled above 48 calls), every flush call and every create error; non-trivial = the file has >= 1 write call; distinct = input hash"
+        "one run = one input (format x element type visited in turn by run index; shape 0..6 x 0..40 x 0..8 incl. empty axes; special values and arbitrary bit patterns; array inputs in C / Fortran / axis-permuted / inverted-axis / reversed-axes memory layout) saved fault-free and then once per (write-call index, fault kind) for EVERY write call of that file (sampled above 48 calls), every flush call and every create error; non-trivial = the file has >= 1 write call; distinct = input hash"
     }
     fn components(&self) -> Value {
         json!({"real": ["save_csv", "save_csv_tensor", "save_arrow", "save_parquet", "save_parquet_tensor", "csv / arrow-ipc / parquet writers and readers"], "stub": ["disk = in-memory file with fault plan"]})
